@@ -5,6 +5,7 @@ CONSTANTS
   ObeySet = {"all", "clean", "error", "none"}
   EASet = {"none", "secs", "ms", "at"}
   WithInterrupt = TRUE
+  EarlyExit = TRUE
   Emit = FALSE
 INIT Init
 NEXT Next
